@@ -8,7 +8,8 @@ EXPLANATION = (
     "(A3) the lifecycle function is referenced once, inside the closure given to Entry::or_insert_with on the payments table "
     "(vacant entry, lock held), spawned as its own task, with a single pay site outside any loop; (A4) pay only through "
     "add_payment_attempt==Ok; (A5) every lifecycle path answers exactly once, so the table entry (mutual exclusion) lives "
-    "from spawn to answer. Overlap of two lifecycles after the answer is not enumerated."
+    "from spawn to answer; (A6) the provider clauses the restart path relies on: wait_payment reports none only after every listed pending part was "
+    "waited for (C15-V1..V5) and pay reports failure only when final (C16-D). Overlap of two lifecycles after the answer is not enumerated."
 )
 ASSUMPTIONS = ["C15/C16: the provider re-checks the node before reporting failure", "tokio::sync::Mutex provides mutual exclusion on the payments table"]
 
@@ -22,3 +23,10 @@ def run(F, X, rep):
     R.a3_one_lifecycle_per_entry(C, rep, "C05-A3")
     R.w1_intent_before_pay(C, rep, "C05-A4")
     R.p2_exactly_one_answer(C, rep, "C05-A5")
+    # A6: the provider side of "nothing pending or complete" (restart path re-checks the node)
+    import rules_provider as P
+    P.v_wait_payment(C, rep, "C05-A6")
+    P.d_dispatch(C, rep, "C05-A6")
+    import rules_hh as H
+    if H.need_hh(C, rep, "C05-A3"):
+        H.p4b_answer_only_via_lifecycle(C, rep, "C05-A3")
